@@ -29,7 +29,7 @@ ITEM_HARNESS = {
     'types::Token::get_name': ['rewrite', 'roundtrip'],
     'types::SourceMapIndex::lookup_token': ['index_flatten'], 'types::SourceMapSection::get_offset': ['index_flatten'],
     'hermes::SourceMapHermes::get_scope_for_token': ['hermes_scope'],
-    'types::SourceMap::adjust_mappings::create_ranges': ['adjust', 'adjust_dups'], 'decoder::decode_regular__tail': ['decode_document', 'roundtrip'],
+    'types::SourceMap::adjust_mappings::create_ranges': ['adjust', 'adjust_dups'], 'types::SourceMap::rewrite_with_mapping': ['rewrite'], 'decoder::decode_regular__tail': ['decode_document', 'roundtrip'],
     'decoder::decode_common': ['decode_document'], 'decoder::decode_index': ['index_flatten', 'decode_document'],
 }
 # property -> stand-ins that run on every check (parts of the property outside the verifier's reach so far)
